@@ -28,6 +28,11 @@ func catch(f func() string) (out string) {
 	return f()
 }
 
+var (
+	gMu    sync.Mutex
+	gCount int
+)
+
 var All = []Prog{
 	{"chan/unbuffered-rendezvous", func() string {
 		ch := make(chan int)
@@ -396,6 +401,27 @@ var All = []Prog{
 		p.Put("old")
 		return fmt.Sprint(p.Get())
 	}, []string{"new", "old"}},
+	{"global/package-level-mutex-and-counter", func() string {
+		// state kept at package level: an execution that the explorer cuts short while gMu is held
+		// must not leave it locked for the next one (generated resets, see cmd/vinstr)
+		gMu.Lock()
+		start := gCount
+		gMu.Unlock()
+		var wg sync.WaitGroup
+		for i := 0; i < 2; i++ {
+			wg.Add(1)
+			go func() {
+				defer wg.Done()
+				gMu.Lock()
+				gCount++
+				gMu.Unlock()
+			}()
+		}
+		wg.Wait()
+		gMu.Lock()
+		defer gMu.Unlock()
+		return fmt.Sprint(gCount - start)
+	}, []string{"2"}},
 	{"pool/nil-new", func() string {
 		var p sync.Pool
 		return fmt.Sprint(p.Get())
